@@ -6,6 +6,8 @@ use std::io::BufRead;
 
 #[macro_use] mod gen_tables;
 mod util;
+mod apps;
+mod c01;
 mod c02;
 mod c03;
 mod c09;
@@ -19,6 +21,7 @@ fn main() {
     std::panic::set_hook(Box::new(|_| {}));
     let prop = std::env::args().nth(1).unwrap_or_default();
     let f: fn(&Value) -> Value = match prop.as_str() {
+        "C01" | "C04" => c01::run_case,
         "C02" => c02::run_case,
         "C03" => c03::run_case,
         "C09" => c09::run_case,
